@@ -474,8 +474,19 @@ func vf13Experiment(base *conf.Conf, newConf *conf.Conf, rec *vf13Rec) {
 
 // vf13ExperimentVia: live Core started with base, reloaded to via (if not nil), then to newConf; compared with a
 // fresh Core of newConf. With via != nil and newConf == base this is the chain base -> changed -> base.
+// vf13Copy: an independent, usable copy of a validated configuration. Conf.Clone() alone leaves the compiled
+// regular expressions of the path entries unusable (deepClone cannot copy regexp.Regexp's unexported fields;
+// production code always re-validates a clone before using it) - see findings/C13.md.
+func vf13Copy(c *conf.Conf) *conf.Conf {
+	n := c.Clone()
+	if err := n.Validate(nil); err != nil {
+		panic("verif: a validated configuration does not validate after Clone: " + err.Error())
+	}
+	return n
+}
+
 func vf13ExperimentVia(base *conf.Conf, via *conf.Conf, newConf *conf.Conf, rec *vf13Rec) {
-	freshOld, err := vf13NewCore(base.Clone())
+	freshOld, err := vf13NewCore(vf13Copy(base))
 	if err != nil {
 		rec.Skipped = "fresh core with the old configuration failed: " + err.Error()
 		return
@@ -483,7 +494,7 @@ func vf13ExperimentVia(base *conf.Conf, via *conf.Conf, newConf *conf.Conf, rec 
 	snapOld, _ := vf13Snapshots(freshOld)
 	vf13Close(freshOld)
 
-	freshNew, err := vf13NewCore(newConf.Clone())
+	freshNew, err := vf13NewCore(vf13Copy(newConf))
 	if err != nil {
 		rec.Skipped = "fresh core with the new configuration failed: " + err.Error()
 		return
@@ -491,7 +502,7 @@ func vf13ExperimentVia(base *conf.Conf, via *conf.Conf, newConf *conf.Conf, rec 
 	snapNew, refsNew := vf13Snapshots(freshNew)
 	vf13Close(freshNew)
 
-	live, err := vf13NewCore(base.Clone())
+	live, err := vf13NewCore(vf13Copy(base))
 	if err != nil {
 		rec.Skipped = "live core failed: " + err.Error()
 		return
@@ -507,7 +518,7 @@ func vf13ExperimentVia(base *conf.Conf, via *conf.Conf, newConf *conf.Conf, rec 
 	defer runtime.KeepAlive(&keep)
 	idsMid := map[string]uintptr{}
 	if via != nil {
-		if err := live.reloadConf(via.Clone()); err != nil {
+		if err := live.reloadConf(vf13Copy(via)); err != nil {
 			rec.Skipped = "first reload of the chain failed: " + err.Error()
 			vf13Close(live)
 			return
@@ -517,7 +528,7 @@ func vf13ExperimentVia(base *conf.Conf, via *conf.Conf, newConf *conf.Conf, rec 
 			keep = append(keep, vf13Comp(live, c))
 		}
 	}
-	if err := live.reloadConf(newConf.Clone()); err != nil {
+	if err := live.reloadConf(vf13Copy(newConf)); err != nil {
 		rec.Skipped = "reload failed: " + err.Error()
 		vf13Close(live)
 		return
@@ -739,8 +750,35 @@ func TestVerif_C13_Reload(t *testing.T) {
 			rec.Skipped = "cannot add a path: " + err.Error()
 		} else {
 			vf13Experiment(base, nc, rec)
+			out.Emit(rec)
+			// the same number of path configurations under other names (an entry renamed), a path removed,
+			// and the added path changed back and forth
+			ren := nc.Clone()
+			var op conf.OptionalPath
+			if err := jsonwrapper.Unmarshal([]byte(`{"recordDeleteAfter":"2h"}`), &op); err == nil {
+				if err = ren.RemovePath("vfextra"); err == nil {
+					err = ren.AddPath("vfrenamed", &op)
+				}
+				if err == nil {
+					err = ren.Validate(nil)
+				}
+				if err == nil {
+					r2 := &vf13Rec{Kind: "paths", Param: "paths", Params: []string{"paths"}, Dir: "rename"}
+					vf13Experiment(nc, ren, r2)
+					out.Emit(r2)
+					r3 := &vf13Rec{Kind: "paths", Param: "paths", Params: []string{"paths"}, Dir: "remove"}
+					vf13Experiment(nc, base, r3)
+					out.Emit(r3)
+					r4 := &vf13Rec{Kind: "paths", Param: "paths", Params: []string{"paths"}, Dir: "chain"}
+					vf13ExperimentVia(base, nc, ren, r4)
+					out.Emit(r4)
+				}
+			}
+			rec = nil
 		}
-		out.Emit(rec)
+		if rec != nil {
+			out.Emit(rec)
+		}
 		for _, ca := range cands {
 			tag := strings.Split(ca.f.Tag.Get("json"), ",")[0]
 			if !want["*"] && !want[tag] {
